@@ -786,10 +786,10 @@ FUNCS_C16 = [
 
 
 class Module(object):
-    def __init__(self, rel):
+    def __init__(self, rel, text=None):
         self.rel = rel
         try:
-            self.text = repo.read(rel)
+            self.text = repo.read(rel) if text is None else text
             self.tree = ast.parse(self.text)
         except (IOError, SyntaxError) as e:
             raise TieBroken('%s does not parse: %s' % (rel, e))
@@ -832,14 +832,15 @@ OUTPUT = {
 }
 
 
-def extract(which):
-    """[(class, function, Exec)] for every translated function, names of the definitions resolved."""
+def extract(which, sources=None):
+    """[(class, function, Exec)] for every translated function, names of the definitions resolved.
+    `sources` (rel -> text) replaces files of the working tree (used by mutation campaigns only)."""
     funcs, sixbit, _, _ = OUTPUT[which]
     mods = {}
     calls = {}
     out = []
     for rel, cname, fname, cfg in funcs:
-        mod = mods.get(rel) or mods.setdefault(rel, Module(rel))
+        mod = mods.get(rel) or mods.setdefault(rel, Module(rel, (sources or {}).get(rel)))
         cls = mod.cls(cname)
         fn = mod.fn(cls.body, fname, cname)
         ex = Exec(mod, cls, fn, cfg, calls)
@@ -957,7 +958,14 @@ def render_all(which, items):
 
 
 def generate(which):
-    items = extract(which)
+    try:
+        items = extract(which)
+    except TieBroken:
+        raise
+    except RecursionError as e:
+        raise TieBroken('sdrexpr: source too deeply nested for the translator: %s' % e)
+    except Exception as e:  # noqa - an AST shape the translator did not foresee: fail closed
+        raise TieBroken('sdrexpr: translator failed on the current source (%s: %s)' % (type(e).__name__, e))
     out = os.path.join(lean.LEAN_DIR, 'PyIpmi', 'Gen', OUTPUT[which][2] + '.lean')
     lean.write_if_changed(out, render_all(which, items))
     return dict(('%s.%s' % (c, f) if c else f, [d.name for d in ex.defs]) for c, f, ex in items)
